@@ -135,6 +135,15 @@ fn run_case(c: &Case, rng: &mut Rng, rep: &mut Report, replay: &dyn Fn() -> Stri
             }
             let lt_ok = p.lt == lt_of_label(&c.label) || p.lt == 3;
             let k = p.payload.len();
+            // a first fragment announces protocol type + label as written + PDU; what does not fit 16 bits cannot be
+            // encoded decodably
+            if let Some(tl) = p.total_len {
+                let want_tl = 2 + p.label.len() + c.pdu.len();
+                if tl as usize != want_tl {
+                    rep.violation("C13", format!("total-length-field:{}", cls), || format!("{} = {:?}: total length field {} but protocol type + label ({} bytes written) + PDU = {}", desc(), st, tl, p.label.len(), want_tl), replay);
+                    return "undecodable";
+                }
+            }
             if p.exts != want || p.ptype != Some(c.ptype) || !lt_ok || k > c.pdu.len() || pkt[p.payload.clone()] != c.pdu[..k] || (ctx.is_none() && k != c.pdu.len()) {
                 rep.violation("C13", format!("wire-decoding-differs:{}", cls), || format!("{} = {:?}: TS 102 606 reading of {} gives chain {:?}, type {:?}, {} payload bytes — not what was passed", desc(), st, hex_short(&pkt, 64), p.exts.iter().map(|e| format!("{:#06x}/{}", e.id, e.data.len())).collect::<Vec<_>>(), p.ptype, k), replay);
                 return "undecodable";
@@ -356,7 +365,14 @@ impl Property for Prop {
                         return;
                     }
                     let id = ((key << 8) | lo) as u16;
-                    for len in 0..=10usize {
+                    // data lengths 0..=10, and (for one id in sixteen) lengths around 256 and 512: a length that only
+                    // matches the H-LEN table modulo 256 is as wrong as any other
+                    let mut lens: Vec<usize> = (0..=10).collect();
+                    if lo % 16 == 3 || id < 0x0600 && (id & 0xFF) == 0 {
+                        lens.extend(250..=266);
+                        lens.extend(506..=522);
+                    }
+                    for len in lens {
                         rep.eval();
                         let data = vec![0xA5u8; len];
                         let want_ok = id < 0x0600 && (id < 0x0100 || len == hl[(id >> 8) as usize]);
@@ -484,7 +500,8 @@ impl Property for Prop {
                         rep.sample(|| format!("small: chain {} type {:#06x} label {} pdu {}B, every buffer size 5..={} -> complete / fragmented round trips recover the chain", chain_str(&chain), ptype, label_str(&label), plen, full));
                     }
                 } else {
-                    let plen = match rng.below(5) {
+                    let plen = match rng.below(if legal { 6 } else { 5 }) {
+                        5 => 65533usize.saturating_sub(label_bytes(&label).len()) + rng.below(6) - 2,
                         0 => rng.range(4000, 4100),
                         1 => rng.range(0, 3),
                         2 => rng.range(4100, 9000),
